@@ -44,7 +44,8 @@ class UTxOSelector:
             utxos (List[UTxO]): A list of UTxO to select from.
             outputs (List[TransactionOutput]): A list of transaction outputs which the selected set should satisfy.
             context (ChainContext): A chain context where protocol parameters could be retrieved.
-            max_input_count (int): Max number of input UTxOs to select.
+            max_input_count (int): Max number of input UTxOs to select, including the UTxOs added to bring the
+                change up to the minimum ADA. `None` means no limit; `0` means that no UTxO may be selected.
             include_max_fee (bool): Have selected UTxOs to cover transaction fee. Defaults to True. If disabled,
                 there is a possibility that selected UTxO are not able to cover the fee of the transaction.
             respect_min_utxo (bool): Respect minimum amount of ADA required to hold a multi-asset bundle in the change.
@@ -100,7 +101,7 @@ class LargestFirstSelector(UTxOSelector):
             selected.append(to_add)
             selected_amount += to_add.output.amount
 
-            if max_input_count and len(selected) > max_input_count:
+            if max_input_count is not None and len(selected) > max_input_count:
                 raise MaxInputCountExceededException(
                     f"Max input count: {max_input_count} exceeded!"
                 )
@@ -120,7 +121,11 @@ class LargestFirstSelector(UTxOSelector):
                         )
                     ],
                     context,
-                    max_input_count - len(selected) if max_input_count else None,
+                    (
+                        max_input_count - len(selected)
+                        if max_input_count is not None
+                        else None
+                    ),
                     include_max_fee=False,
                     respect_min_utxo=False,
                 )
@@ -236,10 +241,9 @@ class RandomImproveMultiAsset(UTxOSelector):
             # In case where there is no remaining UTxOs or we already selected more than ideal,
             # we cannot improve by randomly adding more UTxOs, therefore return immediate.
             return
-        if max_input_count is not None and len(selected) > max_input_count:
-            raise MaxInputCountExceededException(
-                f"Max input count: {max_input_count} exceeded!"
-            )
+        if max_input_count is not None and len(selected) >= max_input_count:
+            # The selection already holds the maximum number of inputs, adding one more would exceed the limit.
+            return
 
         i, to_add = self._get_next_random(remaining)
         if (
@@ -288,7 +292,7 @@ class RandomImproveMultiAsset(UTxOSelector):
         selected_amount = Value()
         for r in request_sorted:
             self._random_select_subset(r, remaining, selected, selected_amount)
-            if max_input_count and len(selected) > max_input_count:
+            if max_input_count is not None and len(selected) > max_input_count:
                 raise MaxInputCountExceededException(
                     f"Max input count: {max_input_count} exceeded!"
                 )
@@ -327,7 +331,11 @@ class RandomImproveMultiAsset(UTxOSelector):
                         )
                     ],
                     context,
-                    max_input_count - len(selected) if max_input_count else None,
+                    (
+                        max_input_count - len(selected)
+                        if max_input_count is not None
+                        else None
+                    ),
                     include_max_fee=False,
                     respect_min_utxo=False,
                 )
